@@ -60,82 +60,111 @@ func checkC15(p *Prog, r *Report) {
 	nCall, nGo := 0, 0
 	var levelVars []ssa.Value
 	var itemBlocks []*ssa.BasicBlock
-	for _, fn := range p.RepoFns("spine") {
-		forEachCall(fn, func(site ssa.CallInstruction) {
-			c := site.Common()
-			if !calleeIsIfaceMethod(c, ehi, "HandleEvent") {
-				return
+	var itemSites []ssa.Instruction
+	var goSites, callSites []ssa.Instruction
+	scopeFns := p.RepoFns("spine")
+	p.InScope(publish, func() {
+		for _, fn0 := range scopeFns {
+			if belowScopeRoot(fn0) {
+				continue // an extracted helper of Publish: visited as part of Publish
 			}
-			key := FnName(fn)
-			_, isGo := site.(*ssa.Go)
-			if isGo {
-				nGo++
-				key += "|go"
-			} else {
-				nCall++
-				key += "|call"
-			}
-			held := false
-			for lp := range ls.At(site.(ssa.Instruction)) {
-				if lastComp(lp) == guardLock {
-					held = true
+			fn0 := fn0
+			forEachCall(fn0, func(site ssa.CallInstruction) {
+				c := site.Common()
+				if !calleeIsIfaceMethod(c, ehi, "HandleEvent") {
+					return
 				}
-			}
-			r.Check("R2", key, !held && guardLock != "", p.InstrPos(site), fmt.Sprintf("locks held at the invocation: %s", ls.At(site.(ssa.Instruction))))
-			if fn != publish {
-				r.Fail("R3", key+"|outside-publish", p.InstrPos(site), "handlers are invoked outside Publish")
-				return
-			}
-			// level test
-			isCore, known := false, false
-			var levelVar ssa.Value
-			for _, g := range Guards(site.Block()) {
-				bo, ok := g.Cond.(*ssa.BinOp)
-				if !ok || (bo.Op != token.EQL && bo.Op != token.NEQ) {
-					continue
+				fn := fn0 // invocations inside an extracted helper of Publish count as Publish's
+				key := FnName(fn)
+				_, isGo := site.(*ssa.Go)
+				if isGo {
+					nGo++
+					key += "|go"
+				} else {
+					nCall++
+					key += "|call"
 				}
-				k, isK := constInt(bo.Y)
-				if !isK || !isNamed(bo.X.Type(), "api", "EventHandlerLevel") {
-					continue
+				held := false
+				for lp := range ls.AtLifted(site.(ssa.Instruction)) {
+					if lastComp(lp) == guardLock {
+						held = true
+					}
 				}
-				// only the test of the loop's level variable against the core constant (not the item filter)
-				if k == core && !strings.Contains(Path(bo.X), ".Level") {
-					levelVar = bo.X
-					known = true
-					isCore = (bo.Op == token.EQL) == g.Val
+				r.Check("R2", key, !held && guardLock != "", p.InstrPos(site), fmt.Sprintf("locks held at the invocation: %s", ls.At(site.(ssa.Instruction))))
+				if fn != publish {
+					r.Fail("R3", key+"|outside-publish", p.InstrPos(site), "handlers are invoked outside Publish")
+					return
 				}
-			}
-			if levelVar != nil {
-				levelVars = append(levelVars, levelVar)
-			}
-			itemBlocks = append(itemBlocks, elementLoadBlock(c.Value))
-			want := "call"
-			if !isCore {
-				want = "go"
-			}
-			got := "call"
-			if isGo {
-				got = "go"
-			}
-			r.Check("R3", key+"|mode", known && want == got, p.InstrPos(site), fmt.Sprintf("level is core: %v (decided by a dominating test: %v); invoked by %s", isCore, known, got))
-			// item level matches the loop level: guarded by item.Level == level
-			okItem := false
-			for _, g := range Guards(site.Block()) {
-				bo, ok := g.Cond.(*ssa.BinOp)
-				if !ok {
-					continue
+				// level test
+				isCore, known, direct := false, false, false
+				var levelVar ssa.Value
+				for _, g := range Guards(site.Block()) {
+					bo, ok := g.Cond.(*ssa.BinOp)
+					if !ok || (bo.Op != token.EQL && bo.Op != token.NEQ) {
+						continue
+					}
+					k, isK := constInt(bo.Y)
+					if !isK || !isNamed(bo.X.Type(), "api", "EventHandlerLevel") {
+						continue
+					}
+					// the test of the loop's level variable against the core constant ...
+					if k == core && !strings.Contains(Path(bo.X), ".Level") {
+						levelVar = substParam(bo.X)
+						known = true
+						isCore = (bo.Op == token.EQL) == g.Val
+					}
+					// ... or, where the levels are not iterated as a sequence, the test of the item's own level against a constant
+					if strings.HasSuffix(Path(bo.X), ".Level") && !known {
+						eq := (bo.Op == token.EQL) == g.Val
+						switch {
+						case eq:
+							known, isCore, direct = true, k == core, true
+						case k == core:
+							known, isCore, direct = true, false, true
+						}
+					}
 				}
-				eq := (bo.Op == token.EQL) == g.Val
-				if eq && (strings.HasSuffix(Path(bo.X), ".Level") || strings.HasSuffix(Path(bo.Y), ".Level")) {
-					okItem = true
+				if levelVar != nil {
+					levelVars = append(levelVars, levelVar)
 				}
-			}
-			r.Check("R3", key+"|level-filter", okItem, p.InstrPos(site), "only handlers subscribed at the level being processed are invoked")
-			// R4 snapshot
-			recv := Path(c.Value)
-			r.Check("R4", key+"|snapshot", !strings.Contains(recv, "recv.handlers") && !strings.Contains(recv, "Events.handlers"), p.InstrPos(site), "handler taken from "+recv)
-		})
-	}
+				itemBlocks = append(itemBlocks, elementLoadBlock(c.Value))
+				itemSites = append(itemSites, site.(ssa.Instruction))
+				want := "call"
+				if !isCore {
+					want = "go"
+				}
+				got := "call"
+				if isGo {
+					got = "go"
+				}
+				r.Check("R3", key+"|mode", known && want == got, p.InstrPos(site), fmt.Sprintf("level is core: %v (decided by a dominating test: %v); invoked by %s", isCore, known, got))
+				// item level matches the loop level: guarded by item.Level == level
+				okItem := false
+				for _, g := range Guards(site.Block()) {
+					bo, ok := g.Cond.(*ssa.BinOp)
+					if !ok {
+						continue
+					}
+					eq := (bo.Op == token.EQL) == g.Val
+					if eq && (strings.HasSuffix(Path(bo.X), ".Level") || strings.HasSuffix(Path(bo.Y), ".Level")) {
+						okItem = true
+					}
+				}
+				if direct {
+					okItem = true // the item's own level was tested directly
+					if isGo {
+						goSites = append(goSites, site.(ssa.Instruction))
+					} else {
+						callSites = append(callSites, site.(ssa.Instruction))
+					}
+				}
+				r.Check("R3", key+"|level-filter", okItem, p.InstrPos(site), "only handlers subscribed at the level being processed are invoked")
+				// R4 snapshot
+				recv := Path(c.Value)
+				r.Check("R4", key+"|snapshot", !strings.Contains(recv, "recv.handlers") && !strings.Contains(recv, "Events.handlers"), p.InstrPos(site), "handler taken from "+recv)
+			})
+		}
+	})
 	if nCall != 1 || nGo != 1 {
 		r.Undecided("R3", "floor:invocations", "", fmt.Sprintf("%d synchronous and %d asynchronous handler invocations found, one each expected", nCall, nGo))
 	}
@@ -143,6 +172,36 @@ func checkC15(p *Prog, r *Report) {
 	// processed before the next level starts)
 	okNest := len(levelVars) > 0 && len(itemBlocks) > 0
 	nestDetail := ""
+	lift := func(ins ssa.Instruction) ssa.Instruction {
+		var res ssa.Instruction
+		p.InScope(publish, func() {
+			res = ins
+			for d := 0; d < 3 && res.Parent() != publish; d++ {
+				if s := p.HelperSite(res.Parent()); s != nil {
+					res = s
+				} else {
+					break
+				}
+			}
+		})
+		return res
+	}
+	sequential := false
+	if len(levelVars) == 0 && len(goSites) > 0 && len(callSites) > 0 {
+		// sequential shape: one pass for the core handlers, then one for the others — no core handler can be
+		// reached once an asynchronous start has happened
+		okNest = true
+		sequential = true
+		for _, g := range goSites {
+			for _, c := range callSites {
+				lg, lc := lift(g), lift(c)
+				if lg.Parent() != lc.Parent() || blockReaches(lg.Block(), lc.Block()) {
+					okNest = false
+					nestDetail = "a synchronous (core) invocation is reachable after an asynchronous start"
+				}
+			}
+		}
+	}
 	for _, lv := range levelVars {
 		lb := elementLoadBlock(lv)
 		if lb == nil {
@@ -151,13 +210,22 @@ func checkC15(p *Prog, r *Report) {
 			continue
 		}
 		hl := innermostLoopHeader(lb)
-		for _, ib := range itemBlocks {
+		for i, ib := range itemBlocks {
 			if ib == nil {
 				okNest = false
 				nestDetail = "the handler invoked is not an element of a list being iterated"
 				continue
 			}
 			hi := innermostLoopHeader(ib)
+			if hi != nil && hl != nil && hi.Parent() != hl.Parent() {
+				// the handler loop sits in an extracted helper: its call site must lie inside the level loop
+				if i < len(itemSites) {
+					ls2 := lift(itemSites[i])
+					if ls2.Parent() == hl.Parent() && hl.Dominates(ls2.Block()) && blockReaches(ls2.Block(), hl) {
+						continue
+					}
+				}
+			}
 			if hl == nil || hi == nil || hl == hi || !hl.Dominates(hi) || !blockReaches(hi, hl) {
 				okNest = false
 				nestDetail = "the loop over the handler list is not nested inside the loop over the levels: a handler of a later level can be started before a core handler further down the list has run"
@@ -189,17 +257,24 @@ func checkC15(p *Prog, r *Report) {
 			}
 		}
 	}
-	r.Check("R3", FnName(publish)+"|core-first", first == core, p.Pos(publish.Pos()), fmt.Sprintf("first level processed has value %d, core is %d", first, core))
+	if sequential {
+		// no level sequence: the order is the order of the passes, decided above
+		r.Check("R3", FnName(publish)+"|core-first", okNest, p.Pos(publish.Pos()), "the pass invoking the core handlers synchronously comes before any asynchronous start")
+	} else {
+		r.Check("R3", FnName(publish)+"|core-first", first == core, p.Pos(publish.Pos()), fmt.Sprintf("first level processed has value %d, core is %d", first, core))
+	}
 	// the snapshot copy happens under the lock
 	okCopy := false
-	forEachCall(publish, func(site ssa.CallInstruction) {
-		if builtinName(site.Common()) == "copy" && strings.HasSuffix(Path(site.Common().Args[1]), "."+FN("events.handlers")) {
-			for lp := range ls.At(site.(ssa.Instruction)) {
-				if lastComp(lp) == guardLock {
-					okCopy = true
+	p.InScope(publish, func() {
+		forEachCall(publish, func(site ssa.CallInstruction) {
+			if builtinName(site.Common()) == "copy" && strings.HasSuffix(Path(site.Common().Args[1]), "."+FN("events.handlers")) {
+				for lp := range ls.At(site.(ssa.Instruction)) {
+					if lastComp(lp) == guardLock {
+						okCopy = true
+					}
 				}
 			}
-		}
+		})
 	})
 	r.Check("R4", FnName(publish)+"|copy-under-lock", okCopy, p.Pos(publish.Pos()), "the handler list is copied while the bus lock is held")
 
@@ -208,12 +283,14 @@ func checkC15(p *Prog, r *Report) {
 	// lock and waits for the handling lock; the handler running under publisher 1 waits for the list lock)
 	r.Rule("R7", "the lock guarding the handler list is not held at any acquisition of a lock that is held while handlers are invoked (handlers may subscribe and unsubscribe; a waiting publisher holding the list lock would deadlock with them)")
 	handling := map[string]bool{}
-	forEachCall(publish, func(site ssa.CallInstruction) {
-		if calleeIsIfaceMethod(site.Common(), ehi, "HandleEvent") {
-			for lp := range ls.At(site.(ssa.Instruction)) {
-				handling[lastComp(lp)] = true
+	p.InScope(publish, func() {
+		forEachCall(publish, func(site ssa.CallInstruction) {
+			if calleeIsIfaceMethod(site.Common(), ehi, "HandleEvent") {
+				for lp := range ls.AtLifted(site.(ssa.Instruction)) {
+					handling[lastComp(lp)] = true
+				}
 			}
-		}
+		})
 	})
 	nAcq := 0
 	for _, fn := range p.RepoFns("spine") {
@@ -346,6 +423,47 @@ func c15ScanContent(p *Prog, ls *Lockset, r *Report) {
 				}
 			}
 		}
+		// the scan may sit in an extracted look-up helper or in the predicate handed to a library search
+		allCmp := func(g *ssa.Function) {
+			for _, gb := range g.Blocks {
+				for _, ins := range gb.Instrs {
+					if bo, ok := ins.(*ssa.BinOp); ok && (bo.Op == token.EQL || bo.Op == token.NEQ) {
+						for _, side := range []ssa.Value{bo.X, bo.Y} {
+							pth := Path(side)
+							if i := strings.LastIndex(pth, "."); i >= 0 {
+								fields[pth[i+1:]] = true
+							}
+						}
+					}
+				}
+			}
+		}
+		forEachCallOwn(fn, func(site ssa.CallInstruction) {
+			c, ok := site.(*ssa.Call)
+			if !ok {
+				return
+			}
+			usesList := false
+			for _, arg := range c.Call.Args {
+				if loadsField(arg, a.Field) {
+					usesList = true
+				}
+			}
+			callee := c.Call.StaticCallee()
+			if callee == nil {
+				return
+			}
+			switch {
+			case p.helperCandidate(callee) && len(ls.accessesIn(F("events.handlers"), callee)) > 0:
+				allCmp(callee)
+			case usesList && fnPkgPath(callee) == "slices" && (originName(callee) == "ContainsFunc" || originName(callee) == "IndexFunc"):
+				if mc, ok := c.Call.Args[len(c.Call.Args)-1].(*ssa.MakeClosure); ok {
+					if cl, ok := mc.Fn.(*ssa.Function); ok {
+						allCmp(cl)
+					}
+				}
+			}
+		})
 		r.Check("R6", fmt.Sprintf("field:events.handlers|fn:%s|scan-compares", FnName(fn)), fields["Level"] && fields["Handler"], p.InstrPos(a.Ins), fmt.Sprintf("the deciding conditions compare %v of the existing items", sortedKeys(fields)))
 	}
 }
